@@ -153,3 +153,165 @@ def simple_page_doc(contents_list, mediabox=(0, 0, 612, 792), fonts=None, page_e
         nid += 2
     objs[2] = {"Type": Name("Pages"), "Kids": kids, "Count": len(kids)}
     return write_pdf(objs, 1), objs
+
+
+# ---------------------------------------------------------------------------------------------------
+# Revision histories in every physical form (C02).
+def _be(v, w):
+    return int(v).to_bytes(w, "big") if w else b""
+
+
+def write_history(revisions, r, header=b"%PDF-1.5\n"):
+    """revisions: list (oldest first) of dicts {defs: {objid: value}, form: table|stream|hybrid,
+    packed: set(objids stored in object streams), eol: b'\\n'|b'\\r\\n'|b'\\r', root: objid, info: objid|None}.
+    `r` is a random.Random used for the writer's free choices (W widths, /Index partition, subsection splits).
+    Returns (bytes, layout) with layout = list of sections NEWEST FIRST in the order pdfminer consults them:
+      ("table", {objid: (pos, gen)}) | ("stream", ranges, (w1, w2, w3), data_bytes, {objid: entry})
+    and layout_content = {pos: (objid, kind, payload)}."""
+    out = bytearray(header)
+    sections_per_rev = []
+    content = {}
+    prev = None
+    fresh = [max([0] + [n for rev in revisions for n in rev["defs"]]) + 1000]
+    maxid = 0
+    for rev in revisions:
+        eol = rev.get("eol", b"\n")
+        direct, packed = {}, {}
+        for n, v in rev["defs"].items():
+            (packed if (n in rev.get("packed", ()) and rev["form"] != "table" and not isinstance(v, Stream)) else direct)[n] = v
+        offsets = {}
+        # object streams (at most two)
+        stm_entries = {}
+        if packed:
+            ids = sorted(packed)
+            groups = [ids] if len(ids) < 2 or r.random() < 0.5 else [ids[:len(ids) // 2], ids[len(ids) // 2:]]
+            for g in groups:
+                fresh[0] += 1
+                sid = fresh[0]
+                body = b""
+                hdr = []
+                for k, n in enumerate(g):
+                    hdr.append((n, len(body)))
+                    body += ser(packed[n]) + r.choice([b" ", b"\n"])
+                    stm_entries[n] = (sid, k)
+                htxt = b" ".join(b"%d %d" % h for h in hdr) + b"\n"
+                direct[sid] = Stream({"Type": Name("ObjStm"), "N": len(g), "First": len(htxt)}, htxt + body)
+                content_stm = (len(g), [x for h in hdr for x in h], [packed[n] for n in g])
+                rev.setdefault("_stms", {})[sid] = content_stm
+        for n in sorted(direct):
+            offsets[n] = len(out)
+            content[len(out)] = (n, direct[n])
+            out += b"%d 0 obj" % n + eol + ser(direct[n]) + eol + b"endobj" + eol
+        maxid = max([maxid] + list(direct) + list(packed))
+        trailer = {"Size": maxid + 2, "Root": Ref(rev["root"])}
+        if rev.get("info") is not None:
+            trailer["Info"] = Ref(rev["info"])
+        if prev is not None:
+            trailer["Prev"] = prev
+
+        def xref_stream(entries, extra):
+            """entries: {objid: (type, f2, f3)} -> object text of an xref stream; returns (objid, bytes, sect)"""
+            fresh[0] += 1
+            xid = fresh[0]
+            pos = len(out)
+            entries = dict(entries)
+            entries[xid] = (1, pos, 0)
+            ids = sorted(entries)
+            # partition into /Index ranges: runs of consecutive ids, randomly split further, gaps filled with type 0
+            ranges = []
+            cur = [ids[0]]
+            for n in ids[1:]:
+                if n == cur[-1] + 1 and r.random() < 0.8:
+                    cur.append(n)
+                elif n - cur[-1] <= 3 and r.random() < 0.3:
+                    for m in range(cur[-1] + 1, n):
+                        cur.append(m)
+                        entries[m] = (0, 0, 65535)
+                    cur.append(n)
+                else:
+                    ranges.append((cur[0], len(cur)))
+                    cur = [n]
+            ranges.append((cur[0], len(cur)))
+            m2 = max(e[1] for e in entries.values())
+            m3 = max(e[2] for e in entries.values())
+            w1 = r.choice([1, 1, 2]) if any(e[0] != 1 for e in entries.values()) else r.choice([0, 1])
+            w2 = max(1, (m2.bit_length() + 7) // 8) + r.choice([0, 0, 1])
+            w3 = max((m3.bit_length() + 7) // 8, 0) + r.choice([0, 1])
+            if w3 == 0 and m3 != 0:
+                w3 = 1
+            data = b""
+            for start, cnt in ranges:
+                for n in range(start, start + cnt):
+                    t, a, b = entries[n]
+                    data += _be(t, w1) + _be(a, w2) + _be(b, w3)
+            d = {"Type": Name("XRef"), "W": [w1, w2, w3], "Size": max(maxid, xid) + 1}
+            if not (len(ranges) == 1 and ranges[0][0] == 0 and ranges[0][1] == d["Size"] and r.random() < 0.5):
+                d["Index"] = [x for rg in ranges for x in rg]
+            d.update(extra)
+            use_flate = r.random() < 0.4
+            payload = __import__("zlib").compress(data) if use_flate else data
+            if use_flate:
+                d["Filter"] = Name("FlateDecode")
+            content[pos] = (xid, Stream(d, payload))
+            txt = b"%d 0 obj" % xid + eol + ser(Stream(d, payload)) + eol + b"endobj" + eol
+            if "Index" not in d:
+                ranges = [(0, d["Size"])]
+                # entries beyond the data are read as empty slices; keep model and bytes consistent
+            sect = ("stream", ranges, (w1, w2, w3), data,
+                    {n: e for n, e in entries.items() if e[0] in (1, 2)})
+            return xid, pos, txt, sect
+
+        def table_text(offs):
+            ids = sorted(offs)
+            txt = b"xref" + eol
+            subs = []
+            cur = []
+            for n in ids:
+                if cur and n == cur[-1] + 1 and r.random() < 0.85:
+                    cur.append(n)
+                else:
+                    if cur:
+                        subs.append(cur)
+                    cur = [n]
+            if cur:
+                subs.append(cur)
+            if prev is None and (not subs or subs[0][0] != 0):
+                subs.insert(0, [0])
+            ent_eol = {b"\n": b" \n", b"\r": b" \r", b"\r\n": b"\r\n"}[eol]
+            for sub in subs:
+                txt += b"%d %d" % (sub[0], len(sub)) + eol
+                for n in sub:
+                    if n == 0 and n not in offs:
+                        txt += b"0000000000 65535 f" + ent_eol
+                    else:
+                        txt += b"%010d %05d n" % (offs[n], 0) + ent_eol
+            return txt
+
+        secs = []
+        if rev["form"] == "table":
+            xpos = len(out)
+            out += table_text(offsets) + b"trailer" + eol + ser(trailer) + eol
+            secs.append(("table", {n: (p, 0) for n, p in offsets.items()}))
+        elif rev["form"] == "stream":
+            ents = {n: (1, p, 0) for n, p in offsets.items()}
+            ents.update({n: (2, s, k) for n, (s, k) in stm_entries.items()})
+            extra = {k: v for k, v in trailer.items() if k != "Size"}
+            xid, xpos, txt, sect = xref_stream(ents, extra)
+            out += txt
+            secs.append(sect)
+        else:  # hybrid: the compressed objects (and nothing else) go to the XRefStm
+            ents = {n: (2, s, k) for n, (s, k) in stm_entries.items()}
+            xid, spos, txt, sect = xref_stream(ents, {})
+            out += txt
+            xpos = len(out)
+            tr = dict(trailer)
+            tr["XRefStm"] = spos
+            offs = dict(offsets)
+            out += table_text(offs) + b"trailer" + eol + ser(tr) + eol
+            secs.append(("table", {n: (p, 0) for n, p in offs.items()}))
+            secs.append(sect)
+        out += b"startxref" + eol + b"%d" % xpos + eol + b"%%EOF" + eol
+        prev = xpos
+        sections_per_rev.append(secs)
+    layout = [s for secs in reversed(sections_per_rev) for s in secs]
+    return bytes(out), layout, content
